@@ -267,7 +267,7 @@ PROPS = {
                     'recursion detection, unused-function and pub-without-params checks: bounded catalogue only', 'refutability of let / for patterns: bounded catalogue only', 'constrain_type body'],
     ),
     'C09': dict(
-        units=['literal'],
+        units=['literal', 'decode'],
         deps=[('typing', 'C17')],
         kani=[
             dict(name='c09_signed_to_bits_layout', fn='compile::signed_to_bits', label='complete-over-i64-x-sizes',
@@ -289,7 +289,8 @@ PROPS = {
               'encodes to exactly enum_max_size bits: the tag number big-endian in the first enum_tag_size bits, then the encodings of the variant fields '
               'in order, then zeros (given, as precondition, that the payload fits - enum_max_size is the maximum over the variants - and that '
               'enum_tag_size / enum_max_size / enum_tag_number, which are not under contract, return the tag width, total size and tag number). '
-              'The decoders, Literal::parse / Display, is_of_type and from_result_bits are NOT under contract (recursion over Literal with HashMap<String,_> lookups, closures, formatter): a '
+              'Decoding, aggregate arms PROVED (unit decode: the Array and Tuple arms of the real Literal::from_unwrapped_bits, lifted; the recursive call is an opaque function returning the uninterpreted decoding): element k of an array is decoded from the k-th slice of the size of the element type, field k of a tuple from the slice that starts where the fields before it end and has the size of its type, in order; an error is the error of one of them (precondition: the bit vector has the size of the type - the function does not check it). '
+              'The other decoders (struct, enum, const-sized arrays, the integer arms), Literal::parse / Display, is_of_type and from_result_bits are NOT under contract (recursion over Literal with HashMap<String,_> lookups, closures, formatter): a '
               'bounded differential check through compile / literal_arg / parse_arg / as_bits / eval / parse_output compares 19 types x random and '
               'boundary values with a reference model of the documented layout (size, exact bits, print-parse round trip, identity program) and 21 '
               'hostile literals (out-of-range numbers, permuted / duplicated / missing struct fields, wrong enum arity, inverted or oversized ranges) '
@@ -297,7 +298,7 @@ PROPS = {
         note='Trusted: Kani/CBMC; Verus/Z3, vstd; Vec::extend with a vector argument modelled by a verified helper (R22), a range copy_from_slice by the loop it denotes (R23); '
              'the reference encoder in replay/src/c09.rs. Bounded part is labelled bounded and not counted as proved.',
         title='literal encoding: integer encoders/decoders proved for all values and sizes (Kani), aggregate concatenation and enum layout proved (Verus); decoding, parsing, validation by bounded differential',
-        unverified=['Literal::as_bits range arm; enum_tag_size / enum_max_size / enum_tag_number; from_unwrapped_bits / from_result_bits', 'Literal::parse, Display', 'Literal::is_of_type',
+        unverified=['Literal::as_bits range arm; enum_tag_size / enum_max_size / enum_tag_number; from_unwrapped_bits (struct, enum, const-sized array and integer arms) / from_result_bits', 'Literal::parse, Display', 'Literal::is_of_type',
                     'Evaluator::set_* / TryFrom<EvalOutput>'],
     ),
     'C14': dict(
